@@ -201,10 +201,44 @@ def _always_fails(body):
         if oc == "raise":
             continue
         last = steps[-1].node if steps else None
-        if isinstance(last, ast.Expr) and isinstance(last.value, ast.Call) and (dotted(last.value.func) or "") in ("sys.exit", "exit", "quit", "os._exit"):
+        if isinstance(last, ast.Expr) and isinstance(last.value, ast.Call) and _failing_exit(last.value):
             continue
         return False
     return bool(ps)
+
+
+def _zero_status(call):
+    """An exit call / SystemExit(...) whose status is the success status: no argument, 0, None or False."""
+    if call.keywords and not call.args:
+        arg = call.keywords[0].value
+    elif call.args:
+        arg = call.args[0]
+    else:
+        return True
+    return isinstance(arg, ast.Constant) and arg.value in (0, None, False)
+
+
+def _failing_exit(call):
+    """sys.exit(<non-zero>) / ctx.exit(<non-zero>) / click's ctx.fail(...) / ctx.abort(): the process ends with an error status."""
+    d = dotted(call.func) or ""
+    name = d.split(".")[-1] if d else (call.func.attr if isinstance(call.func, ast.Attribute) else "")
+    if d in ("sys.exit", "exit", "quit", "os._exit") or (name == "exit" and isinstance(call.func, ast.Attribute)):
+        return not _zero_status(call)
+    if name in ("fail", "abort") and isinstance(call.func, ast.Attribute):
+        return True
+    return False
+
+
+def _raises_success(body):
+    """A handler path that ends in `raise SystemExit` / `raise SystemExit(0)`: the process exits with status 0."""
+    for n in ast.walk(ast.Module(body=list(body), type_ignores=[])):
+        if isinstance(n, ast.Raise) and n.exc is not None:
+            e = n.exc
+            if isinstance(e, ast.Name) and e.id == "SystemExit":
+                return True
+            if isinstance(e, ast.Call) and (dotted(e.func) or "").split(".")[-1] in ("SystemExit", "Exit") and _zero_status(e):
+                return True
+    return False
 
 
 def swallowing_handlers(node, fnode, pmap):
@@ -217,7 +251,7 @@ def swallowing_handlers(node, fnode, pmap):
         if isinstance(cur, ast.Try) and any(child is s for s in cur.body):
             for h in cur.handlers:
                 hit = _catches_truncation(h.type)
-                if hit and not _always_fails(h.body):
+                if hit and (not _always_fails(h.body) or _raises_success(h.body)):
                     out.append((h, "except %s: %s" % (", ".join(hit), "; ".join(u(s) for s in h.body)[:80])))
         if isinstance(cur, (ast.With, ast.AsyncWith)) and any(child is s for s in cur.body):
             for it in cur.items:
@@ -658,6 +692,44 @@ def _single_binding(ctx, fi, value_node, label, already_failed=False):
     return name
 
 
+def decorator_wrappers(prog, fi):
+    """Repository functions applied as decorators to `fi` (bare `@name` or a factory call `@name(...)`)."""
+    out = []
+    for d in fi.node.decorator_list:
+        e = d.func if isinstance(d, ast.Call) else d
+        name = dotted(e)
+        if name is None:
+            continue
+        g = prog.resolve_function(name, fi.module) if "." not in name else (prog.functions.get(canon(ast.Call(func=e, args=[], keywords=[]), fi.module)) or None)
+        if g is not None:
+            out.append((d, g))
+    return out
+
+
+def wrapped_calls(g):
+    """Calls inside decorator `g` (and its nested functions) to one of its own parameters: the wrapped command."""
+    params = set()
+    for n in ast.walk(g.node):
+        if isinstance(n, (ast.FunctionDef, ast.AsyncFunctionDef, ast.Lambda)):
+            a = n.args
+            params |= {x.arg for x in a.posonlyargs + a.args + a.kwonlyargs}
+    return [c for c in calls(g.node) if isinstance(c.func, ast.Name) and c.func.id in params]
+
+
+def check_decorators(ctx, prog, fi, label):
+    """No repository decorator on `fi` calls the decorated command under a handler that swallows a truncation error."""
+    n = 0
+    for d, g in decorator_wrappers(prog, fi):
+        pm = parents(g.node)
+        for c in wrapped_calls(g):
+            n += 1
+            sw = swallowing_handlers(c, g.node, pm)
+            ctx.check(not sw, "F2", "%s: decorator %s runs the command outside any handler that swallows a truncation error" % (label, g.name), g.where(sw[0][0]) if sw else g.where(c),
+                      "decorator `%s` on `%s` runs the command under `%s`: the command ends with the success status (or goes on) although the trace could not be read" % (g.name, fi.name, sw[0][1] if sw else ""),
+                      construct=g.qualname, stmt="handler in decorator of %s" % fi.name)
+    return n
+
+
 def rule_F2(ctx, f1):
     prog = ctx.prog
     ctx.rule("F2", "every summary command loads the trace with one pickle.load in a read-binary frame, outside loops, binds it once, and no handler from the load up to the CLI wrapper swallows a truncation error", 15)
@@ -725,6 +797,7 @@ def rule_F2(ctx, f1):
             if callee.qualname in seen or depth > 3:
                 continue
             seen.add(callee.qualname)
+            check_decorators(ctx, prog, callee, name)
             for fi in prog.functions.values():
                 if fi is callee:
                     continue
@@ -957,6 +1030,15 @@ SELFTEST = [
      "new": "    results = {}\n    with gzip.GzipFile(in_file, \"rb\") as fh:\n        try:\n            results = pickle.load(fh)\n        except (pickle.UnpicklingError, OSError):\n            pass\n\n    data = results[0][\"data\"]\n\n    chain_num = 0\n"},
     {"name": "F2-cli-wrapper-swallows", "kind": "break", "rule": "F2", "file": _CLI, "old": "    write_map_results(**kwargs)\n",
      "new": "    try:\n        write_map_results(**kwargs)\n    except Exception as e:\n        print(\"warning:\", e)\n"},
+    {"name": "F2-cli-decorator-exits-zero", "kind": "break", "rule": "F2", "edits": [
+        {"file": _CLI, "old": '# =========================================================================\n# Consensus Tree Output\n', "new": 'def quiet_on_bad_trace(command):\n    def wrapper(**kwargs):\n        try:\n            command(**kwargs)\n        except (EOFError, OSError) as err:\n            click.echo("Error: unreadable trace ({})".format(err), err=True)\n            click.get_current_context().exit()\n\n    wrapper.__name__ = command.__name__\n    wrapper.__doc__ = command.__doc__\n    return wrapper\n\n\n# =========================================================================\n# Consensus Tree Output\n'},
+        {"file": _CLI, "old": "def map(**kwargs):", "new": "@quiet_on_bad_trace\ndef map(**kwargs):"}]},
+    {"name": "benign-cli-decorator-exits-nonzero", "kind": "benign", "edits": [
+        {"file": _CLI, "old": '# =========================================================================\n# Consensus Tree Output\n', "new": 'def quiet_on_bad_trace(command):\n    def wrapper(**kwargs):\n        try:\n            command(**kwargs)\n        except (EOFError, OSError) as err:\n            click.echo("Error: unreadable trace ({})".format(err), err=True)\n            click.get_current_context().exit(2)\n\n    wrapper.__name__ = command.__name__\n    wrapper.__doc__ = command.__doc__\n    return wrapper\n\n\n# =========================================================================\n# Consensus Tree Output\n'},
+        {"file": _CLI, "old": "def map(**kwargs):", "new": "@quiet_on_bad_trace\ndef map(**kwargs):"}]},
+    {"name": "benign-cli-decorator-raises-click-exception", "kind": "benign", "edits": [
+        {"file": _CLI, "old": '# =========================================================================\n# Consensus Tree Output\n', "new": 'def quiet_on_bad_trace(command):\n    def wrapper(**kwargs):\n        try:\n            command(**kwargs)\n        except (EOFError, OSError) as err:\n            click.echo("Error: unreadable trace ({})".format(err), err=True)\n            raise click.ClickException("unreadable trace")\n\n    wrapper.__name__ = command.__name__\n    wrapper.__doc__ = command.__doc__\n    return wrapper\n\n\n# =========================================================================\n# Consensus Tree Output\n'},
+        {"file": _CLI, "old": "def map(**kwargs):", "new": "@quiet_on_bad_trace\ndef map(**kwargs):"}]},
     {"name": "F2-topology-two-loads-merged", "kind": "break", "rule": "F2", "file": _PT, "old": _TOP_OLD,
      "new": "    with gzip.GzipFile(in_file, \"rb\") as fh:\n        results = pickle.load(fh)\n        if fh.peek(1):\n            results.update(pickle.load(fh))\n\n    print(\"\\nExtracting unique topologies from sample trace.\")\n"},
     {"name": "F2-map-fallback-binding-in-else", "kind": "break", "rule": "F2", "file": _PT, "old": _MAP_OLD,
